@@ -9,6 +9,7 @@ prop(
         dict(run="^TestPropStrictImpliesLoadable$",
              quick=dict(checks=64000, shards=16, timeout=900),
              thorough=dict(checks=2400000, shards=16, timeout=7200)),
+        dict(run="^$", fuzz="FuzzStrict", thorough=dict(fuzztime="600s", timeout=1500)),
     ],
     rule="structural rule documents (ruledoc x yamlstyle) with 0-3 tree perturbations per document - every field independently given an invalid value, "
          "mistyped (int/bool/null/list/map/tagged), duplicated, removed, renamed or joined by an unknown key; containers retyped; groups duplicated; anchors, aliases "
